@@ -358,6 +358,15 @@ def extract(sources, names):
         shutil.rmtree(d, ignore_errors=True)
 
 
+def _file_digest(rel):
+    import hashlib
+    try:
+        with open(os.path.join(REPO, rel), 'rb') as f:
+            return hashlib.sha256(f.read()).hexdigest()[:16]
+    except OSError:
+        return None
+
+
 def run(prop, cfg, tier, seed):
     t0 = time.time()
     cs = cases(tier, seed)
@@ -441,7 +450,7 @@ def run(prop, cfg, tier, seed):
     os.makedirs(os.path.join(ROOT, 'replays'), exist_ok=True)
     with open(os.path.join(ROOT, 'replays', 'C03.failing.json'), 'w') as fh:
         json.dump(failing[:50], fh)
-    infos = {'c03:' + fl: dict(file=fl, line=1, n=(len(verdicts) if fl == FILES[0] else 0)) for fl in FILES}
+    infos = {'c03:' + fl: dict(file=fl, line=1, digest=_file_digest(fl), n=(len(verdicts) if fl == FILES[0] else 0)) for fl in FILES}
     return dict(verdicts=verdicts, infos=infos,
                 trusted=['CPython ast.parse is the semantics of the generated text', 'parsimonious (PEG engine) executed, not modelled',
                          'XMILE v1.0 section 3.3 operator table as written in verif/c03_trees.py is the reference semantics',
